@@ -24,6 +24,8 @@ type C02Plan struct {
 	Cache     int     `json:"cache"` // 0 none, 1 read cache, 2 delayed-write cache
 	CacheSize int     `json:"cache_size,omitempty"`
 	Ops       []C02Op `json:"ops"`
+	AlwaysAbs int     `json:"always_abs,omitempty"` // interface option AlwaysSetAbsoluteExpiry: now + this many seconds at open time (0 = off)
+	AlwaysRel int     `json:"always_rel,omitempty"` // interface option AlwaysSetRelativateExpiry in seconds (0 = off)
 	IterFault int     `json:"iter_fault,omitempty"` // >0: separate scenario: the backend query ends with an error after n-1 records
 }
 
@@ -56,6 +58,14 @@ func genC02(rng *rand.Rand, tier string) *C02Plan {
 	p.Shadow = rng.IntN(2) == 0
 	p.Cache = []int{0, 0, 1, 1, 2}[rng.IntN(5)]
 	p.CacheSize = []int{2, 64}[rng.IntN(2)]
+	if p.Cache != 2 { // a delayed write re-applies the options when it is flushed: not modelled
+		switch rng.IntN(8) {
+		case 0:
+			p.AlwaysAbs = []int{30, 3600, 86400}[rng.IntN(3)]
+		case 1:
+			p.AlwaysRel = []int{5, 60, 3600}[rng.IntN(3)]
+		}
+	}
 	if p.Cache == 2 && (p.Backend == "fstree" || p.Backend == "badger") {
 		if rng.IntN(8) == 0 {
 			// dedicated probe: delayed-write cache on a backend without batch put
@@ -103,6 +113,7 @@ type c02State struct {
 	dir   string
 	stopWriter context.CancelFunc
 	bypassed   bool
+	alwaysAbs  int64
 	writerDone chan struct{}
 }
 
@@ -116,7 +127,14 @@ func (s *c02State) write(key string, seed int, wrapped bool) (record.Record, *mr
 	nonce := fmt.Sprintf("n%d", nonceCounter)
 	f := fieldsFromSeed(seed)
 	now := nowUnix()
-	return makeRecord(key, nonce, f, wrapped), &mrec{Nonce: nonce, F: f, Created: now, Modified: now}
+	m := &mrec{Nonce: nonce, F: f, Created: now, Modified: now}
+	switch {
+	case s.alwaysAbs > 0:
+		m.Expires = s.alwaysAbs
+	case s.p.AlwaysRel > 0:
+		m.Expires = now + int64(s.p.AlwaysRel)
+	}
+	return makeRecord(key, nonce, f, wrapped), m
 }
 
 // compareGet checks one key against the model.
@@ -277,6 +295,15 @@ func execC02(p *C02Plan, rc *simkit.RunCtx) {
 		opts.CacheSize = p.CacheSize
 		opts.DelayCachedWrites = dbName
 	}
+	var alwaysAbs int64
+	if p.AlwaysAbs > 0 {
+		alwaysAbs = nowUnix() + int64(p.AlwaysAbs)
+		opts.AlwaysSetAbsoluteExpiry = alwaysAbs
+	}
+	if p.AlwaysRel > 0 {
+		opts.AlwaysSetRelativateExpiry = int64(p.AlwaysRel)
+	}
+	s.alwaysAbs = alwaysAbs
 	s.iface = database.NewInterface(opts)
 	if p.Cache == 2 {
 		s.startWriter()
@@ -457,6 +484,13 @@ func execC02(p *C02Plan, rc *simkit.RunCtx) {
 				}
 				if op.Secs > 0 {
 					m.Expires = now + int64(op.Secs)
+				}
+				// every save through the interface applies its Always options last
+				switch {
+				case s.alwaysAbs > 0:
+					m.Expires = s.alwaysAbs
+				case p.AlwaysRel > 0:
+					m.Expires = now + int64(p.AlwaysRel)
 				}
 				m.Modified = now
 			} else if err == nil {
